@@ -14,6 +14,10 @@ CHECKS = {
    text="The lexer is transcribed into TLA+ (XjsLexer); TLC enumerates every byte string up to the configured length over five class-representative alphabets, checks the declarative tiling/position property P_C10 on the model's tokens, and exports each string; the real lexer is run on all of them (plus seeded random lexeme-fragment sequences and cut/mutated repository fixtures) under a panic/termination watchdog with extra requests after EOF, and TLC (Trace_C10) evaluates P_C10 on the REAL token lists and compares them with the model.",
    note="Trusted: P_C10 as a reading of the statement (LF is the line break for line counting and the newline flag; lone CR is whitespace), TLC, the Go watchdog for the no-panic/termination clause.",
    tech="TLA+ transcription of the lexer + TLC exhaustive small-scope inputs; replay on the real lexer; TLC validation of recorded token lists against a declarative predicate", ref="DESIGN.md 5 C10"),
+ "C11": dict(cat="model_checking",
+   text="The Pratt parser is transcribed into TLA+ at token level including every error path (XjsParser); TLC enumerates every token string up to the configured length over the cfg's token kinds in space- and newline-separated layout and checks on the model, in all four parser modes, that statement lists hold no nil, that an error-free result is complete, that the context stack is restored and that errors sit on tokens; every string is replayed on the real parser (four modes, panic/termination watchdog, compile in 10 configurations when error-free) together with seeded byte-level inputs, and TLC (Trace_C11) evaluates the error contract P_C11 on the REAL results and compares tree and error positions with the model run on the real tokens.",
+   note="Trusted: P_C11 as a reading of the statement; error ranges are judged against the token list of the real lexer for the same input; the no-panic/termination clause is decided by the Go watchdog (recover, 5 s per case).",
+   tech="TLA+ transcription of the parser + TLC exhaustive small-scope token strings; replay on the real parser; TLC validation of recorded results against a declarative predicate and the model", ref="DESIGN.md 5 C11"),
 }
 
 hooks_commits = []
